@@ -2,6 +2,8 @@ package rules
 
 import (
 	"fmt"
+	"go/constant"
+	"go/token"
 	"go/types"
 	"sort"
 
@@ -16,7 +18,7 @@ func init() {
 		ID:        "C09",
 		Technique: "SSA forward dataflow (lower bound of len) with context-sensitive callee summaries, caller guarantees and no-return pruning; dominance of type tests",
 		Explanation: "Decides, for every constant or len-relative index/slice expression on an Object list anywhere in the module, that the list is provably long enough on every path reaching it " +
-			"(C09.idx), and the sibling clauses listed under rules. This is a necessary condition of 'no Lisp input faults the host' for the index-out-of-range fault class; it does not decide termination, allocation bounds or nil dereference.",
+			"(C09.idx); the same for x[len(x)-k] on slices of other element types (C09.rel); and that every read of the format argument vector is dominated by an argument-count test (C09.fmt). This is a necessary condition of 'no Lisp input faults the host' for the index-out-of-range fault class; it does not decide termination, allocation bounds or nil dereference.",
 		NotCovered: "termination, allocation bounds, nil dereference in general, faults in third-party packages",
 		Trusted:    commonTrusted,
 		Run:        runC09,
@@ -97,6 +99,152 @@ func fieldName(fa *ssa.FieldAddr) string {
 
 func runC09(c *core.Ctx, r *core.Reporter) {
 	c09idx(c, r)
+	c09rel(c, r)
+	c09fmt(c, r)
+}
+
+// c09fmt: the format engine's argument cursor (same obligations as C15.args, reported under C09).
+func c09fmt(c *core.Ctx, r *core.Reporter) {
+	c15argsAs(c, r, "C09.fmt")
+}
+
+const ruleRel = "C09.rel"
+
+// c09rel: x[len(x)-k] and x[:len(x)-k] on slices of any other element type (byte buffers, strings of names, ...).
+func c09rel(c *core.Ctx, r *core.Reporter) {
+	r.Rule(ruleRel, "every x[len(x)-k] and x[:len(x)-k] (constant k >= 1) on a slice that is not a list of Objects is reached only with len(x) >= k proven (same engine as C09.idx)", 20)
+	an := lenflow.New(c)
+	type site struct {
+		fn   *ssa.Function
+		in   ssa.Instruction
+		kind string
+		k    int
+		have int
+		need int
+		root ssa.Value
+	}
+	var sites []*site
+	for _, fn := range c.ModuleFuncs() {
+		if takesTestingT(fn) {
+			continue
+		}
+		has := false
+		for _, b := range fn.Blocks {
+			for _, in := range b.Instrs {
+				switch x := in.(type) {
+				case *ssa.IndexAddr:
+					if _, ok := x.X.Type().Underlying().(*types.Slice); ok && !isObjectSlice(x.X.Type()) {
+						if _, isC := x.Index.(*ssa.Const); !isC {
+							has = true
+						}
+					}
+				case *ssa.Slice:
+					if _, ok := x.X.Type().Underlying().(*types.Slice); ok && !isObjectSlice(x.X.Type()) && x.High != nil {
+						if _, isC := x.High.(*ssa.Const); !isC {
+							has = true
+						}
+					}
+				}
+			}
+		}
+		if !has {
+			continue
+		}
+		res := an.Analyze(fn, nil, nil, 0)
+		res.Visit(func(in ssa.Instruction, st lenflow.State) {
+			switch x := in.(type) {
+			case *ssa.IndexAddr:
+				if _, ok := x.X.Type().Underlying().(*types.Slice); !ok || isObjectSlice(x.X.Type()) {
+					return
+				}
+				ref := res.ResolveSlice(x.X)
+				if ir, isLen, ok := res.ResolveInt(x.Index); ok && isLen && ir.Root == ref.Root && ir.Off > ref.Off {
+					sites = append(sites, &site{fn: fn, in: in, kind: "last", k: ir.Off - ref.Off, need: ir.Off, root: ref.Root, have: res.LBRoot(st, ref.Root)})
+				}
+			case *ssa.Slice:
+				if _, ok := x.X.Type().Underlying().(*types.Slice); !ok || isObjectSlice(x.X.Type()) || x.High == nil {
+					return
+				}
+				ref := res.ResolveSlice(x.X)
+				if ir, isLen, ok := res.ResolveInt(x.High); ok && isLen && ir.Root == ref.Root && ir.Off > ref.Off {
+					sites = append(sites, &site{fn: fn, in: in, kind: "hilen", k: ir.Off - ref.Off, need: ir.Off, root: ref.Root, have: res.LBRoot(st, ref.Root)})
+				}
+			}
+		})
+	}
+	sort.SliceStable(sites, func(i, j int) bool {
+		if core.SSAName(sites[i].fn) != core.SSAName(sites[j].fn) {
+			return core.SSAName(sites[i].fn) < core.SSAName(sites[j].fn)
+		}
+		return sites[i].in.Pos() < sites[j].in.Pos()
+	})
+	r.Count("rel_sites", len(sites))
+	for _, s := range sites {
+		key := fmt.Sprintf("%s|%s[%s%d]", core.SSAName(s.fn), rootDesc(s.root), s.kind, s.k)
+		detail := fmt.Sprintf("need len>=%d, proven len>=%d", s.need, s.have)
+		if s.have >= s.need {
+			r.Hold(ruleRel, key, c.Pos(s.in.Pos()), detail)
+			continue
+		}
+		if ex, ok := relExceptions[key]; ok {
+			if relNeedsOtherLenGuard[key] && !core.Separates(s.fn, s.in.Block(), an.NoReturn, otherLenPositive) {
+				r.Violate(ruleRel, key, c.Pos(s.in.Pos()), detail+": the accepted argument needs a test `0 < len(y)` of the companion sequence on every path to this site, and there is none")
+				continue
+			}
+			r.Hold(ruleRel, key, c.Pos(s.in.Pos()), "accepted by reading: "+ex+" ("+detail+")")
+			continue
+		}
+		r.Violate(ruleRel, key, c.Pos(s.in.Pos()), detail+": no dominating length check was found")
+	}
+}
+
+// relNeedsOtherLenGuard: exceptions whose argument rests on a test of another sequence's length; the
+// exception only applies while that test is still on every path to the site.
+var relNeedsOtherLenGuard = map[string]bool{
+	"pkg/cl.(control).dirR|phi:words[hilen1]": true,
+}
+
+// otherLenPositive accepts the branch edge on which some len(y) is known to be positive.
+func otherLenPositive(ifi *ssa.If, branch bool) bool {
+	bo, ok := ifi.Cond.(*ssa.BinOp)
+	if !ok {
+		return false
+	}
+	isLen := func(v ssa.Value) bool {
+		call, ok := v.(*ssa.Call)
+		if !ok {
+			return false
+		}
+		bi, ok := call.Call.Value.(*ssa.Builtin)
+		return ok && bi.Name() == "len"
+	}
+	isZero := func(v ssa.Value) bool {
+		k, ok := v.(*ssa.Const)
+		return ok && k.Value != nil && k.Value.Kind() == constant.Int && k.Int64() == 0
+	}
+	switch bo.Op {
+	case token.LSS: // 0 < len(y)
+		return branch && isZero(bo.X) && isLen(bo.Y)
+	case token.GTR: // len(y) > 0
+		return branch && isLen(bo.X) && isZero(bo.Y)
+	case token.NEQ: // len(y) != 0
+		return branch && ((isLen(bo.X) && isZero(bo.Y)) || (isZero(bo.X) && isLen(bo.Y)))
+	case token.EQL: // len(y) == 0, false edge
+		return !branch && ((isLen(bo.X) && isZero(bo.Y)) || (isZero(bo.X) && isLen(bo.Y)))
+	}
+	return false
+}
+
+var relExceptions = map[string]string{
+	"pkg/cl.(control).dirR|phi:words[hilen1]":             "guarded by 0 < len(trip), and the same iteration appended trip to words under the same test; no instruction between the two shortens words (relation between two slices, beyond the length lattice)",
+	"pkg/repl.(Form).TabAppend|phi:b[last1]":              "inside `if 0 < len(f)`: the loop over f appends at least two bytes before the last one is overwritten",
+	"pkg/repl.(editor).displayHelp|param:doc[last1]":      "interactive terminal editor state, not Lisp input; doc strings handed in are non-empty lines",
+	"pkg/repl.(editor).drawLine|phi:rline[last1]":         "interactive terminal editor state, not Lisp input",
+	"pkg/repl.(editor).findWordEnd|field:lines[last1]":    "interactive terminal editor state: the editor always holds at least one line",
+	"pkg/xml.(Read).Call|phi:stack[last1]":                "encoding/xml rejects an end element without a matching start element before it is delivered, so the stack is non-empty at every EndElement",
+	"pp.resolveSymbol|call:Split[last1]":                   "strings.Split with a non-empty separator always returns at least one element",
+	"slip.(App).load|extract#0(call:ReadFile)[last1]":     "loader of the application's own encrypted bundle (not Lisp input): the payload holds at least one cipher block after the nonce",
+	"slip.AppendDoc|phi:b[last1]":                         "ret is only true after a newline was appended to b in an earlier iteration, so b is non-empty",
 }
 
 const ruleIdx = "C09.idx"
